@@ -27,12 +27,12 @@ func (c *Call) OK() bool {
 
 // FinalFail reports whether the call finished with an outcome after which no retry may follow.
 func (c *Call) PermFail() bool {
-	return c.Returned && !c.CtxDone && (c.Out == Perm || c.Out == WrongType)
+	return c.Returned && !c.CtxDone && (c.Out == Perm || c.Out == WrongType || c.Out == RespPerm || c.Out == WrongTrans || c.Out == WrongPerm)
 }
 
 // TransFail reports a finished, retryable failure (transient error or timeout).
 func (c *Call) TransFail() bool {
-	return c.Returned && (c.CtxDone || c.Out == Trans || c.Out == Overrun)
+	return c.Returned && (c.CtxDone || c.Out == Trans || c.Out == Overrun || c.Out == RespTrans)
 }
 
 // Hist is an index over the event log of one generation.
